@@ -236,6 +236,8 @@ class Repo:
                             self.modules[rel].reindex()
                             self.helpers_inlined = getattr(self, 'helpers_inlined', {})
                             self.helpers_inlined.setdefault(rel, {}).update(ih)
+                        if _cn.fold_container_aliases(rel, self.modules[rel], refnames()):
+                            self.modules[rel].reindex()
                         it = _cn.inline_fresh_temps(rel, self.modules[rel], refnames())
                         if it:
                             self.modules[rel].reindex()
